@@ -219,7 +219,16 @@ where
             {
                 // Capture chunk + thread scratch by move
                 scope.spawn(move || {
+                    #[cfg(feature = "verif-hooks")]
+                    crate::verif_hooks::at("bdd_eval", crate::verif_hooks::Point::ChunkStart, thread_idx, thread_idx * chunk_size);
                     for (idx, out_i) in out_chunk.iter_mut().enumerate() {
+                        #[cfg(feature = "verif-hooks")]
+                        crate::verif_hooks::at(
+                            "bdd_eval",
+                            crate::verif_hooks::Point::ItemStart,
+                            thread_idx,
+                            thread_idx * chunk_size + idx,
+                        );
                         let (nodes, state_size) = circuit.get_circuit(thread_idx * chunk_size + idx);
 
                         if state_size == 0 {
@@ -227,6 +236,13 @@ where
                         } else {
                             eval_level(self, out_i, inputs, nodes, state_size, *scratch_thread);
                         }
+                        #[cfg(feature = "verif-hooks")]
+                        crate::verif_hooks::at(
+                            "bdd_eval",
+                            crate::verif_hooks::Point::ItemEnd,
+                            thread_idx,
+                            thread_idx * chunk_size + idx,
+                        );
                     }
                 });
             }
